@@ -5,3 +5,4 @@ pub mod refcodec;
 pub mod s_wire;
 pub mod s_signer;
 pub mod s_envelope;
+pub mod s_config;
